@@ -6,6 +6,7 @@ import (
 	"encoding/hex"
 	"fmt"
 	"os/exec"
+	"sort"
 	"strings"
 )
 
@@ -54,10 +55,22 @@ func runModel(driver string, lines []string) ([]string, error) {
 }
 
 // batch collects (line, implementation output) pairs and diffs them against the model.
+//
+// judge, when set, decides whether a disagreement is by itself a failing input of the property: the model side
+// of the pair is what the property theorems are about (e.g. "the model accepts exactly the sentences of the
+// grammar"), so where implementation and model differ in the part of the output the theorem speaks about, the
+// implementation fails the property on that very input. judge returns the finding key ("" = the difference is in
+// a part of the output the property does not constrain; it stays a pure correspondence failure).
+//
+// rerun, when set together with judge, recomputes (protocol line, implementation output) for a smaller source,
+// so that the failing input in the replay is minimised (greedy deletion of bytes, model evaluated per round).
 type batch struct {
 	lines []string
 	impl  []string
 	cases []Case
+	judge func(cs Case) (key, desc string)
+	rerun func(orig Case, src string) (line, impl string, cs Case)
+	srcOf func(cs Case) string
 }
 
 func (b *batch) add(line, impl string, c Case) {
@@ -67,10 +80,11 @@ func (b *batch) add(line, impl string, c Case) {
 	b.cases = append(b.cases, c)
 }
 
-// flush runs the model over everything collected so far in chunks and records disagreements.
+// flush runs the model over everything collected so far in chunks and records disagreements, smallest first.
 func (b *batch) flush(c *ctx, r *Report) (int, error) {
-	n := 0
 	const chunk = 200000
+	var dis []Case
+	var disLen []int
 	for i := 0; i < len(b.lines); i += chunk {
 		j := i + chunk
 		if j > len(b.lines) {
@@ -78,17 +92,99 @@ func (b *batch) flush(c *ctx, r *Report) (int, error) {
 		}
 		out, err := runModel(c.driver, b.lines[i:j])
 		if err != nil {
-			return n, err
+			return len(dis), err
 		}
 		for k, m := range out {
 			if m != b.impl[i+k] {
 				cs := b.cases[i+k]
 				cs.Model = m
-				r.disagree(cs)
-				n++
+				dis = append(dis, cs)
+				disLen = append(disLen, len(b.lines[i+k]))
 			}
 		}
 	}
+	idx := make([]int, len(dis))
+	for i := range idx {
+		idx[i] = i
+	}
+	sort.SliceStable(idx, func(x, y int) bool { return disLen[idx[x]] < disLen[idx[y]] })
+	judged := map[string]int{}
+	for _, i := range idx {
+		cs := dis[i]
+		r.disagree(cs)
+		if b.judge == nil {
+			continue
+		}
+		key, desc := b.judge(cs)
+		if key == "" {
+			continue
+		}
+		judged[key]++
+		if judged[key] == 1 && b.rerun != nil && b.srcOf != nil {
+			cs = b.shrink(c, cs, key)
+		}
+		if judged[key] <= 3 {
+			r.finding(key, desc, cs)
+		}
+	}
+	n := len(dis)
 	b.lines, b.impl, b.cases = nil, nil, nil
 	return n, nil
+}
+
+// shrink greedily deletes bytes (longest runs first) while the model and the implementation still differ
+// with the same judgement.
+func (b *batch) shrink(c *ctx, cs Case, key string) Case {
+	src := b.srcOf(cs)
+	for round := 0; round < 400 && len(src) > 1; round++ {
+		var cands []string
+		seen := map[string]bool{}
+		for w := len(src) / 2; w >= 1; w /= 2 {
+			for at := 0; at+w <= len(src); at += w {
+				s2 := src[:at] + src[at+w:]
+				if !seen[s2] {
+					seen[s2] = true
+					cands = append(cands, s2)
+				}
+			}
+			if len(cands) > 4000 {
+				break
+			}
+		}
+		lines := make([]string, len(cands))
+		impls := make([]string, len(cands))
+		css := make([]Case, len(cands))
+		ok := make([]bool, len(cands))
+		for i, s2 := range cands {
+			func() {
+				defer func() { recover() }()
+				lines[i], impls[i], css[i] = b.rerun(cs, s2)
+				ok[i] = true
+			}()
+			if !ok[i] {
+				lines[i] = lines[0]
+			}
+		}
+		out, err := runModel(c.driver, lines)
+		if err != nil {
+			break
+		}
+		found := false
+		for i := range cands {
+			if !ok[i] || out[i] == impls[i] {
+				continue
+			}
+			c2 := css[i]
+			c2.Impl, c2.Model = impls[i], out[i]
+			if k2, _ := b.judge(c2); k2 == key {
+				src, cs, found = cands[i], c2, true
+				break
+			}
+		}
+		if !found {
+			break
+		}
+	}
+	cs.Note = strings.TrimSpace(cs.Note + " (minimised by greedy deletion)")
+	return cs
 }
